@@ -6,6 +6,7 @@ import (
 	"fmt"
 	"runtime/debug"
 	"sort"
+	"strings"
 
 	"github.com/jrhy/mast"
 	"verif/harness/env"
@@ -378,14 +379,24 @@ func kvKeys(kvs []KV) []interface{} {
 }
 
 func (w *World) DescribeModel(m Model) string {
-	s := "{"
-	for i, k := range m.Keys() {
-		if i > 0 {
-			s += " "
+	var b strings.Builder
+	keys := m.Keys()
+	b.WriteByte('{')
+	for i, k := range keys {
+		if len(keys) > 90 && i == 40 {
+			// big models are abbreviated; the replay file holds the whole case
+			fmt.Fprintf(&b, " ...(%d entries in all)...", len(keys))
 		}
-		s += fmt.Sprintf("%v:%d", w.Pool[k], m[k])
+		if len(keys) > 90 && i >= 40 && i < len(keys)-10 {
+			continue
+		}
+		if i > 0 {
+			b.WriteByte(' ')
+		}
+		fmt.Fprintf(&b, "%v:%d", w.Pool[k], m[k])
 	}
-	return s + "}"
+	b.WriteByte('}')
+	return b.String()
 }
 
 // Check compares a tree with its model.
